@@ -10,7 +10,7 @@
    sets) with reasoning over all occupancies.
    Likewise the pin mask: exactly the own pieces that are the only occupied square strictly between their king
    and an enemy rook / bishop / queen moving along that line (C05_pin_mask; is_pinned in spec/Chess.v). *)
-Require Import LC.model.Prims LC.model.Board LC.spec.Chess LC.proofs.MaskInv LC.proofs.C06Proofs LC.proofs.C05Proofs LC.proofs.C05Pins.
+Require Import LC.model.Prims LC.model.Board LC.spec.Chess LC.proofs.MaskInv LC.proofs.C06Proofs LC.proofs.C05Proofs LC.proofs.C05Pins LC.proofs.Reach.
 Open Scope N_scope.
 Theorem C05_attackers_of_any_square : forall b sq P C, MaskInv b -> sq < 64 -> pins_and_checks b sq = Ok (P, C) ->
   forall a, a < 64 -> has C a = color_at (abs b) (opp (b_stm b)) a && mem sq (attacks_from (abs b) a).
@@ -33,3 +33,6 @@ Theorem C05_pins_of_any_square : forall b k P C, MaskInv b -> k < 64 -> pins_and
        | Some (t, c') => color_eqb (opp (b_stm b)) c' && existsb (pin_line (abs b) k u a) (slide_dirs t)
        | None => false end) squares.
 Proof. exact pins_spec. Qed.
+(* the hypotheses of the statements above hold in every position obtained by construction and play, which is moreover valid *)
+Theorem C05_reachable_valid : forall K b, wreachable K b -> reachable K b /\ valid (abs b) = true.
+Proof. intros K b R. split; [exact (wreachable_reachable K b R)|exact (g_valid K b (wreachable_good K b R))]. Qed.
